@@ -804,27 +804,38 @@ func freshPathBuf(r *engine.Run, rule string) {
 	}
 	n := 0
 	o := ord{}
-	engine.Instrs(f, func(in ssa.Instruction) {
-		c, ok := in.(*ssa.Call)
-		if !ok {
-			return
-		}
-		g := c.Call.StaticCallee()
-		if g == nil || recvNamed(g) != "MerklePatriciaTrie" || g.Object() == nil || g.Object().Exported() {
-			return
-		}
-		for _, a := range c.Call.Args[1:] {
-			if !isByteSlice(a.Type()) {
-				continue
+	group := opGroup(r, f)
+	var scan func(h *ssa.Function, pathP ssa.Value, depth int)
+	scan = func(h *ssa.Function, pathP ssa.Value, depth int) {
+		engine.Instrs(h, func(in ssa.Instruction) {
+			c, ok := in.(*ssa.Call)
+			if !ok {
+				return
 			}
-			if _, isConst := stripConv(a).(*ssa.Const); isConst {
-				continue
+			g := c.Call.StaticCallee()
+			if g == nil || recvNamed(g) != "MerklePatriciaTrie" || g.Object() == nil || g.Object().Exported() {
+				return
 			}
-			n++
-			r.Check(rootOf(a) != pathP, rule, o.next(fn(f)+"|path handed to "+g.Name()), r.P.Pos(c.Pos()), "the walk is handed a copy of the caller's path (or a constant)",
-				"Insert hands the caller's own path slice to "+g.Name()+", which builds nodes around sub-slices of it: the stored leaf and extension paths alias the caller's key buffer, so a caller that refills the buffer for its next key rewrites the paths of entries stored before (lookups through another handle, and the saved state, lose them)")
-		}
-	})
+			for ai, a := range c.Call.Args[1:] {
+				if !isByteSlice(a.Type()) {
+					continue
+				}
+				if _, isConst := stripConv(a).(*ssa.Const); isConst {
+					continue
+				}
+				// a helper that only carries part of Insert (validation here, locking there) may be
+				// handed the raw path: what counts is what the helper hands on
+				if rootOf(a) == pathP && g != h && inGroup(group, g) && depth < 3 && ai+1 < len(g.Params) {
+					scan(g, g.Params[ai+1], depth+1)
+					continue
+				}
+				n++
+				r.Check(rootOf(a) != pathP, rule, o.next(fn(h)+"|path handed to "+g.Name()), r.P.Pos(c.Pos()), "the walk is handed a copy of the caller's path (or a constant)",
+					"Insert hands the caller's own path slice to "+g.Name()+", which builds nodes around sub-slices of it: the stored leaf and extension paths alias the caller's key buffer, so a caller that refills the buffer for its next key rewrites the paths of entries stored before (lookups through another handle, and the saved state, lose them)")
+			}
+		})
+	}
+	scan(f, pathP, 0)
 	if n < 2 {
 		r.Anchor(rule, fmt.Errorf("unresolved anchor: only %d path hand-overs found in %s", n, fn(f)))
 	}
